@@ -31,6 +31,9 @@ for e in reviewed:
     have_rev[e["key"]] = e
 have_known = {l for l in known_lines}
 out = subprocess.run([os.path.join(VERIF, "check"), prop], stdout=subprocess.PIPE, stderr=subprocess.STDOUT, text=True, env=env).stdout
+if "INTERNAL ERROR" in out or not re.search(r"^%s: (ok|FAIL) " % prop, out, re.M):
+    print(out[-3000:])
+    sys.exit("check %s gave no verdict; tables left as they are" % prop)
 counts = {}
 for m in re.finditer(r"^  key: (.*?)   \(found x(\d+), allowed x(\d+)\)$", out, re.M):
     counts[m.group(1)] = int(m.group(2))
